@@ -40,8 +40,8 @@ def run(ctx):
     total = 0
     try:
         scratch = R.scratch(ctx, "files")
-        for tag, args in [("hist", ["--seed", ctx.seed, "--count", 120 if quick else 3000, "--max-ops", 40 if quick else 100, "--reopen-pct", 6]),
-                          ("hist-h", ["--handles", "--seed", ctx.seed + 3, "--count", 60 if quick else 1500, "--max-ops", 60])]:
+        for tag, args in [("hist", ["--seed", ctx.seed, "--count", 300 if quick else 3000, "--max-ops", 40 if quick else 100, "--reopen-pct", 6]),
+                          ("hist-h", ["--handles", "--seed", ctx.seed + 3, "--count", 150 if quick else 1500, "--max-ops", 60])]:
             stat, h, sample = A.campaign(ctx, args, tag, THM)   # baseline also against the Lean model (O+D)
             total += stat.get("ops", 0)
             rc, out = C.harness(["variants", "--ops", ctx.path(tag + ".ops"), "--scratch", scratch], timeout=3000)
